@@ -3,8 +3,8 @@ CONSTANTS
   Chunks = {1}
   ValidateIndices = TRUE
   GuardCombine = TRUE
-  GuardControl = FALSE
-  SafeDecode = TRUE
+  GuardControl = TRUE
+  SafeDecode = FALSE
   NoSigpipe = TRUE
   MaxHist = 4
 INVARIANTS C35_NoThrow
